@@ -17,10 +17,10 @@ theorem getReq_ge {reqs : List Req} {r : Nat} (h : reqs.length ≤ r) : getReq r
 theorem phaseOf_ge {reqs : List Req} {r : Nat} (h : reqs.length ≤ r) : phaseOf reqs r = .passed := by
   simp [phaseOf, getReq_ge h, dummy]
 
-theorem lt_of_live {reqs : List Req} {r : Nat} (h : (phaseOf reqs r).live = true) : r < reqs.length := by
+theorem lt_of_eligible {reqs : List Req} {r : Nat} (h : (phaseOf reqs r).eligible = true) : r < reqs.length := by
   by_cases hr : r < reqs.length
   · exact hr
-  · rw [phaseOf_ge (Nat.le_of_not_lt hr)] at h; simp [Phase.live] at h
+  · rw [phaseOf_ge (Nat.le_of_not_lt hr)] at h; simp [Phase.eligible] at h
 
 theorem lt_of_waiting {reqs : List Req} {r : Nat} (h : (phaseOf reqs r).waiting = true) : r < reqs.length := by
   by_cases hr : r < reqs.length
@@ -210,38 +210,43 @@ theorem popMin_none {reqs : List Req} {heap : List Nat} (h : popMin reqs heap = 
   | nil => rfl
   | cons x xs => simp [popMin] at h
 
-/-! ### the roll-over loop -/
+/-! ### phases -/
 
-theorem lt_of_parked {reqs : List Req} {r : Nat} (h : (phaseOf reqs r).isParked = true) : r < reqs.length := by
-  apply lt_of_live
-  cases hp : phaseOf reqs r <;> simp [hp, Phase.isParked, Phase.live] at h ⊢
+theorem waiting_of_eligible {ph : Phase} (h : ph.eligible = true) : ph.waiting = true := by
+  cases ph <;> simp [Phase.eligible, Phase.waiting] at h ⊢
 
-theorem waiting_of_parked {ph : Phase} (h : ph.isParked = true) : ph.waiting = true := by
-  cases ph <;> simp [Phase.isParked, Phase.waiting] at h ⊢
+theorem handoff_not_eligible (ph : Phase) : ph.handoff.eligible = false := by
+  cases ph <;> simp [Phase.handoff, Phase.eligible]
+
+theorem handoff_waiting {ph : Phase} (h : ph.eligible = true) : ph.handoff.waiting = true := by
+  cases ph <;> simp [Phase.eligible, Phase.handoff, Phase.waiting] at h ⊢
+
+/-! ### the serving loop (`processQueueItems`) -/
 
 /-- Everything the proofs need about one execution of `processQueueItems` from loop state `x`
     with fuel `n`, ending in `l`, having handed off `new` (in pop order). -/
 structure LoopFacts (cfg : Cfg) (n : Nat) (x l : Loop) (new : List Nat) : Prop where
   rel : l.rel = x.rel ++ new
-  reqs : l.reqs = setAll x.reqs .wokeDone new
+  reqs : l.reqs = handAll x.reqs new
   counter : l.counter = x.counter + new.length
-  parked : ∀ a ∈ new, (phaseOf x.reqs a).isParked = true
+  elig : ∀ a ∈ new, (phaseOf x.reqs a).eligible = true
   nodup : new.Nodup
   heapSub : ∀ b ∈ l.heap, b ∈ x.heap
   relSub : ∀ a ∈ new, a ∈ x.heap
-  keep : ∀ b ∈ x.heap, (phaseOf x.reqs b).isParked = true → b ∉ new → b ∈ l.heap
+  keep : ∀ b ∈ x.heap, (phaseOf x.reqs b).eligible = true → b ∉ new → b ∈ l.heap
   order : ∀ a ∈ new, ∀ b ∈ l.heap, keyLt (getReq x.reqs b) (getReq x.reqs a) = false
-  phase : ∀ b, phaseOf l.reqs b = if b ∈ new then .wokeDone else phaseOf x.reqs b
+  phase : ∀ b, phaseOf l.reqs b = if b ∈ new then (phaseOf x.reqs b).handoff else phaseOf x.reqs b
   wcount : waitingCount l.reqs = waitingCount x.reqs
+  len : l.reqs.length = x.reqs.length
   stop : x.heap.length ≤ n → cfg.quota ≤ l.counter ∨ l.heap = []
   le : x.counter ≤ cfg.quota → l.counter ≤ cfg.quota
 
 theorem loopFacts_refl (cfg : Cfg) (n : Nat) (x : Loop)
     (hstop : x.heap.length ≤ n → cfg.quota ≤ x.counter ∨ x.heap = []) : LoopFacts cfg n x x [] where
   rel := by simp
-  reqs := by simp [setAll]
+  reqs := by simp [handAll]
   counter := by simp
-  parked := by simp
+  elig := by simp
   nodup := by simp
   heapSub := fun _ h => h
   relSub := by simp
@@ -249,6 +254,7 @@ theorem loopFacts_refl (cfg : Cfg) (n : Nat) (x : Loop)
   order := by simp
   phase := by simp
   wcount := rfl
+  len := rfl
   stop := hstop
   le := fun h => h
 
@@ -271,27 +277,27 @@ theorem rollLoop_facts (cfg : Cfg) (n : Nat) (x : Loop) :
         have hlen : heap'.length = x.heap.length - 1 := by
           rw [hheap, List.length_erase_of_mem hmem]
         split
-        · next hpark =>
-          have hr := lt_of_parked hpark
-          obtain ⟨new', f⟩ := ih { heap := heap', reqs := setPhase x.reqs r .wokeDone,
+        · next hel =>
+          have hr := lt_of_eligible hel
+          obtain ⟨new', f⟩ := ih { heap := heap', reqs := setPhase x.reqs r (phaseOf x.reqs r).handoff,
                                    counter := x.counter + 1, rel := x.rel ++ [r] }
           refine ⟨r :: new', ?_⟩
           have hrnot : r ∉ new' := by
             intro hin
-            have := f.parked r hin
-            simp only [phaseOf_setPhase_self _ hr, Phase.isParked] at this
+            have := f.elig r hin
+            simp only [phaseOf_setPhase_self _ hr, handoff_not_eligible] at this
             exact absurd this (by simp)
           constructor
           · rw [f.rel]; simp
-          · rw [f.reqs]; simp [setAll]
+          · rw [f.reqs]; simp [handAll]
           · rw [f.counter]; simp; omega
           · intro a ha
             simp only [List.mem_cons] at ha
             rcases ha with ha | ha
-            · subst ha; exact hpark
+            · subst ha; exact hel
             · by_cases har : r = a
-              · subst har; exact hpark
-              · have := f.parked a ha
+              · subst har; exact hel
+              · have := f.elig a ha
                 simpa only [phaseOf_setPhase_ne _ har] using this
           · exact List.nodup_cons.mpr ⟨hrnot, f.nodup⟩
           · intro b hb
@@ -328,26 +334,29 @@ theorem rollLoop_facts (cfg : Cfg) (n : Nat) (x : Loop) :
             rw [f.phase b]
             simp only [List.mem_cons]
             by_cases hb : b ∈ new'
-            · simp [hb]
             · by_cases hbr : b = r
-              · subst hbr; simp [phaseOf_setPhase_self _ hr]
+              · subst hbr; exact absurd hb hrnot
+              · simp [hb, phaseOf_setPhase_ne _ (Ne.symm hbr)]
+            · by_cases hbr : b = r
+              · subst hbr; simp [hb, phaseOf_setPhase_self _ hr]
               · simp [hb, hbr, phaseOf_setPhase_ne _ (Ne.symm hbr)]
           · rw [f.wcount]
-            exact waitingCount_setPhase_same _ _ _ (waiting_of_parked hpark) rfl
+            exact waitingCount_setPhase_same _ _ _ (waiting_of_eligible hel) (handoff_waiting hel)
+          · rw [f.len]; simp [length_setPhase]
           · intro h
             apply f.stop
             simp only; omega
           · intro _
             apply f.le
             simp only; omega
-        · next hpark =>
+        · next hel =>
           obtain ⟨new', f⟩ := ih { x with heap := heap' }
           refine ⟨new', ?_⟩
           constructor
           · exact f.rel
           · exact f.reqs
           · exact f.counter
-          · exact f.parked
+          · exact f.elig
           · exact f.nodup
           · intro b hb
             have := f.heapSub b hb
@@ -360,7 +369,7 @@ theorem rollLoop_facts (cfg : Cfg) (n : Nat) (x : Loop) :
             rw [hheap] at this
             exact List.mem_of_mem_erase this
           · intro b hb hbp hbn
-            have hbr : b ≠ r := by intro h; subst h; exact hpark hbp
+            have hbr : b ≠ r := by intro h; subst h; exact hel hbp
             apply f.keep b
             · simp only; rw [hheap]; exact (List.mem_erase_of_ne hbr).mpr hb
             · exact hbp
@@ -368,6 +377,7 @@ theorem rollLoop_facts (cfg : Cfg) (n : Nat) (x : Loop) :
           · exact f.order
           · exact f.phase
           · exact f.wcount
+          · exact f.len
           · intro h
             apply f.stop
             simp only; omega
@@ -396,27 +406,43 @@ theorem grantsIn_release (cfg : Cfg) (w now : Nat) (new : List Nat) (g : List Na
   rw [List.countP_append, List.map_const', List.countP_replicate]
   simp
 
-/-! ### safety invariant: hidden state vs. observer -/
+/-! ### invariant: hidden state vs. observer -/
+
+theorem mem_eligIds {reqs : List Req} {b : Nat} : b ∈ eligIds reqs ↔ (phaseOf reqs b).eligible = true := by
+  simp only [eligIds, List.mem_filter, List.mem_range]
+  exact ⟨fun h => h.2, fun h => ⟨lt_of_eligible h, h⟩⟩
+
+theorem eligible_of_eligible_setPhase {reqs : List Req} {r b : Nat} {ph : Phase}
+    (hph : ph.eligible = true → (phaseOf reqs r).eligible = true)
+    (h : (phaseOf (setPhase reqs r ph) b).eligible = true) : (phaseOf reqs b).eligible = true := by
+  by_cases hb : r = b
+  · subst hb
+    by_cases hr : r < reqs.length
+    · rw [phaseOf_setPhase_self _ hr] at h; exact hph h
+    · have := lt_of_eligible h
+      rw [length_setPhase] at this
+      exact absurd this hr
+  · rwa [phaseOf_setPhase_ne _ hb] at h
 
 structure Inv (cfg : Cfg) (s : State) (o : Obs) : Prop where
   reqs : o.reqs = s.reqs
   now : o.now = s.now
   widx_le : s.widx ≤ s.now / cfg.win
-  served_le : o.served ≤ s.widx
   grants_le : ∀ t ∈ o.grants, t / cfg.win ≤ s.widx
   counter : s.counter = grantsIn cfg s.widx o.grants
   quota : ∀ w, grantsIn cfg w o.grants ≤ cfg.quota
   size : waitingCount s.reqs ≤ cfg.size
+  inHeap : ∀ b, (phaseOf s.reqs b).eligible = true → b ∈ s.heap
 
 theorem inv_init (cfg : Cfg) (t0 : Nat) : Inv cfg (init cfg t0) (Obs.init cfg t0) where
   reqs := rfl
   now := rfl
   widx_le := Nat.le_refl _
-  served_le := Nat.le_refl _
   grants_le := by simp [Obs.init]
   counter := by simp [init, Obs.init, grantsIn]
   quota := by simp [Obs.init, grantsIn]
   size := by simp [init, waitingCount]
+  inHeap := by intro b h; simp [init, phaseOf, getReq, dummy, Phase.eligible] at h
 
 theorem windowUpdate_spec {cfg : Cfg} {s : State} {o : Obs} (inv : Inv cfg s o) :
     windowUpdate cfg s.now s.widx s.counter
@@ -428,96 +454,257 @@ theorem windowUpdate_spec {cfg : Cfg} {s : State} {o : Obs} (inv : Inv cfg s o) 
     have : s.widx = s.now / cfg.win := by have := inv.widx_le; omega
     rw [inv.counter, this]
 
+/-- What one execution of the serving loop, started under the invariant after the window update,
+    guarantees: the batch is safe and fair for the observer, and the invariant's heap clause survives. -/
+structure Served (cfg : Cfg) (s : State) (o : Obs) (L : Loop) : Prop where
+  facts : LoopFacts cfg s.heap.length
+            ⟨s.heap, s.reqs, grantsIn cfg (s.now / cfg.win) o.grants, []⟩ L L.rel
+  safe : relSafe cfg o L.rel = true
+  fair : relFair cfg o L.rel = true
+  counter : L.counter = grantsIn cfg (s.now / cfg.win) o.grants + L.rel.length
+  le : L.counter ≤ cfg.quota
+  reqs : L.reqs = handAll o.reqs L.rel
+  wcount : waitingCount L.reqs = waitingCount s.reqs
+  inHeap : ∀ b, (phaseOf L.reqs b).eligible = true → b ∈ L.heap
+  drained : L.counter < cfg.quota → ∀ b, (phaseOf L.reqs b).eligible = false
+
+theorem served {cfg : Cfg} {s : State} {o : Obs} (inv : Inv cfg s o) :
+    Served cfg s o (rollLoop cfg s.heap.length
+      ⟨s.heap, s.reqs, grantsIn cfg (s.now / cfg.win) o.grants, []⟩) := by
+  obtain ⟨new, f⟩ := rollLoop_facts cfg s.heap.length
+    ⟨s.heap, s.reqs, grantsIn cfg (s.now / cfg.win) o.grants, []⟩
+  have hrel := f.rel
+  simp only [List.nil_append] at hrel
+  rw [← hrel] at f
+  have hq := inv.quota (s.now / cfg.win)
+  have hcnt := f.counter
+  have hle := f.le hq
+  have hstop := f.stop (Nat.le_refl _)
+  simp only at hcnt hle hstop
+  -- an eligible request that is not handed off stays in the heap
+  have hstay : ∀ b, (phaseOf s.reqs b).eligible = true →
+      b ∉ (rollLoop cfg s.heap.length ⟨s.heap, s.reqs, grantsIn cfg (s.now / cfg.win) o.grants, []⟩).rel →
+      b ∈ (rollLoop cfg s.heap.length ⟨s.heap, s.reqs, grantsIn cfg (s.now / cfg.win) o.grants, []⟩).heap :=
+    fun b hl hn => f.keep b (inv.inHeap b hl) hl hn
+  have helig' : ∀ b, (phaseOf (rollLoop cfg s.heap.length
+        ⟨s.heap, s.reqs, grantsIn cfg (s.now / cfg.win) o.grants, []⟩).reqs b).eligible = true →
+      (phaseOf s.reqs b).eligible = true ∧
+        b ∉ (rollLoop cfg s.heap.length ⟨s.heap, s.reqs, grantsIn cfg (s.now / cfg.win) o.grants, []⟩).rel := by
+    intro b hl
+    rw [f.phase b] at hl
+    split at hl
+    · rw [handoff_not_eligible] at hl; simp at hl
+    · next hn => exact ⟨hl, hn⟩
+  have hin : ∀ b, (phaseOf (rollLoop cfg s.heap.length
+        ⟨s.heap, s.reqs, grantsIn cfg (s.now / cfg.win) o.grants, []⟩).reqs b).eligible = true →
+      b ∈ (rollLoop cfg s.heap.length ⟨s.heap, s.reqs, grantsIn cfg (s.now / cfg.win) o.grants, []⟩).heap := by
+    intro b hl
+    obtain ⟨h1, h2⟩ := helig' b hl
+    exact hstay b h1 h2
+  constructor
+  · exact f
+  · simp only [relSafe, Bool.and_eq_true, List.all_eq_true, decide_eq_true_eq]
+    refine ⟨⟨?_, f.nodup⟩, ?_⟩
+    · intro a ha; rw [inv.reqs]; exact f.elig a ha
+    · rw [inv.now]; omega
+  · simp only [relFair, Bool.and_eq_true, Bool.or_eq_true, List.all_eq_true,
+      List.contains_iff_mem, Bool.not_eq_true', decide_eq_true_eq]
+    constructor
+    · intro b hb'
+      have hl := mem_eligIds.mp hb'
+      rw [inv.reqs] at hl
+      by_cases hn : b ∈ (rollLoop cfg s.heap.length
+          ⟨s.heap, s.reqs, grantsIn cfg (s.now / cfg.win) o.grants, []⟩).rel
+      · exact Or.inl hn
+      · right
+        intro a ha'
+        rw [inv.reqs]
+        exact f.order a ha' b (hstay b hl hn)
+    · rcases hstop with h1 | h1
+      · right; rw [inv.now]; omega
+      · left
+        intro b hb'
+        have hl := mem_eligIds.mp hb'
+        rw [inv.reqs] at hl
+        by_cases hn : b ∈ (rollLoop cfg s.heap.length
+            ⟨s.heap, s.reqs, grantsIn cfg (s.now / cfg.win) o.grants, []⟩).rel
+        · exact hn
+        · have := hstay b hl hn
+          rw [h1] at this
+          simp at this
+  · exact hcnt
+  · exact hle
+  · rw [inv.reqs]; exact f.reqs
+  · exact f.wcount
+  · exact hin
+  · intro hlt b
+    rcases hstop with h1 | h1
+    · omega
+    · cases hl : (phaseOf (rollLoop cfg s.heap.length
+          ⟨s.heap, s.reqs, grantsIn cfg (s.now / cfg.win) o.grants, []⟩).reqs b).eligible
+      · rfl
+      · have := hin b hl
+        rw [h1] at this
+        simp at this
+
+theorem eligible_append {reqs : List Req} {q : Req} {b : Nat} (hq : q.ph.eligible = false)
+    (h : (phaseOf (reqs ++ [q]) b).eligible = true) : (phaseOf reqs b).eligible = true := by
+  rw [phaseOf_append] at h
+  split at h
+  · exact h
+  · split at h
+    · rw [hq] at h; simp at h
+    · simp [Phase.eligible] at h
+
 theorem step_inv {cfg : Cfg} {s s' : State} {o : Obs} {l : Label} {e : Ev}
     (inv : Inv cfg s o) (h : step cfg s l = some (s', e)) :
-    safeOk cfg o e = true ∧ Inv cfg s' (obsStep cfg o e) := by
-  have hq := inv.quota (s.now / cfg.win)
+    safeOk cfg o e = true ∧ fairOk cfg o e = true ∧ Inv cfg s' (obsStep cfg o e) := by
   cases l with
   | tick d =>
     simp only [step, Option.some.injEq, Prod.mk.injEq] at h
     obtain ⟨rfl, rfl⟩ := h
-    refine ⟨rfl, ?_⟩
+    refine ⟨rfl, rfl, ?_⟩
     constructor
     · exact inv.reqs
     · simp [obsStep, inv.now]
     · exact Nat.le_trans inv.widx_le (Nat.div_le_div_right (Nat.le_add_right _ _))
-    · exact inv.served_le
     · exact inv.grants_le
     · exact inv.counter
     · exact inv.quota
     · exact inv.size
+    · exact inv.inHeap
   | enq prio ttl =>
     simp only [step, windowUpdate_spec inv] at h
+    have sv := served inv
+    have hc := sv.counter
+    have hle := sv.le
     split at h
     · next hlt =>
       simp only [Option.some.injEq, Prod.mk.injEq] at h
       obtain ⟨rfl, rfl⟩ := h
-      refine ⟨by simp [safeOk, inv.now, hlt], ?_⟩
-      constructor
-      · simp [obsStep, inv.reqs, inv.now]
-      · exact inv.now
-      · exact Nat.le_refl _
-      · exact Nat.le_trans inv.served_le inv.widx_le
-      · intro t ht
-        simp only [obsStep, List.mem_cons] at ht
-        rcases ht with ht | ht
-        · subst ht; rw [inv.now]; exact Nat.le_refl _
-        · exact Nat.le_trans (inv.grants_le t ht) inv.widx_le
-      · simp [obsStep, grantsIn_cons, inv.now]
-      · intro w
-        simp only [obsStep, grantsIn_cons, inv.now]
-        split
-        · next hw => subst hw; omega
-        · exact inv.quota w
-      · simp only [waitingCount_append, Phase.waiting]; simpa using inv.size
+      refine ⟨?_, sv.fair, ?_⟩
+      · simp only [safeOk, Bool.and_eq_true, decide_eq_true_eq]
+        exact ⟨sv.safe, by rw [inv.now]; omega⟩
+      · constructor
+        · simp only [obsStep, inv.now]; rw [sv.reqs]
+        · exact inv.now
+        · exact Nat.le_refl _
+        · intro t ht
+          simp only [obsStep, List.mem_cons, List.mem_append, List.mem_map] at ht
+          rcases ht with ht | ⟨_, _, ht⟩ | ht
+          · subst ht; rw [inv.now]; exact Nat.le_refl _
+          · subst ht; rw [inv.now]; exact Nat.le_refl _
+          · exact Nat.le_trans (inv.grants_le t ht) inv.widx_le
+        · simp only [obsStep, grantsIn_cons, grantsIn_release, inv.now]
+          simp; omega
+        · intro w
+          simp only [obsStep, grantsIn_cons, grantsIn_release, inv.now]
+          have := inv.quota w
+          split <;> simp_all <;> omega
+        · simp only [waitingCount_append, Phase.waiting]; rw [sv.wcount]; simpa using inv.size
+        · intro b hb
+          exact sv.inHeap b (eligible_append rfl hb)
     · next hge =>
       split at h
       · next hfull =>
         simp only [Option.some.injEq, Prod.mk.injEq] at h
         obtain ⟨rfl, rfl⟩ := h
-        refine ⟨by simp [safeOk, inv.now, inv.reqs, hfull]; omega, ?_⟩
-        constructor
-        · simp [obsStep, inv.reqs, inv.now]
-        · exact inv.now
-        · exact Nat.le_refl _
-        · exact Nat.le_trans inv.served_le inv.widx_le
-        · intro t ht
-          exact Nat.le_trans (inv.grants_le t ht) inv.widx_le
-        · simp [obsStep]
-        · exact inv.quota
-        · simp only [waitingCount_append, Phase.waiting]; simpa using inv.size
+        refine ⟨?_, sv.fair, ?_⟩
+        · simp only [safeOk, Bool.and_eq_true, decide_eq_true_eq]
+          refine ⟨⟨sv.safe, by rw [inv.now]; omega⟩, ?_⟩
+          rw [inv.reqs, ← sv.wcount]; exact hfull
+        · constructor
+          · simp only [obsStep, inv.now]; rw [sv.reqs]
+          · exact inv.now
+          · exact Nat.le_refl _
+          · intro t ht
+            simp only [obsStep, List.mem_append, List.mem_map] at ht
+            rcases ht with ⟨_, _, ht⟩ | ht
+            · subst ht; rw [inv.now]; exact Nat.le_refl _
+            · exact Nat.le_trans (inv.grants_le t ht) inv.widx_le
+          · simp only [obsStep, grantsIn_release, inv.now]
+            simp; omega
+          · intro w
+            simp only [obsStep, grantsIn_release, inv.now]
+            have := inv.quota w
+            split <;> simp_all <;> omega
+          · simp only [waitingCount_append, Phase.waiting]; rw [sv.wcount]; simpa using inv.size
+          · intro b hb
+            exact sv.inHeap b (eligible_append rfl hb)
       · next hroom =>
         simp only [Option.some.injEq, Prod.mk.injEq] at h
         obtain ⟨rfl, rfl⟩ := h
-        refine ⟨by simp [safeOk, inv.now, inv.reqs]; omega, ?_⟩
-        constructor
-        · simp [obsStep, inv.reqs, inv.now]
-        · exact inv.now
-        · exact Nat.le_refl _
-        · exact Nat.le_trans inv.served_le inv.widx_le
-        · intro t ht
-          exact Nat.le_trans (inv.grants_le t ht) inv.widx_le
-        · simp [obsStep]
-        · exact inv.quota
-        · simp only [waitingCount_append, Phase.waiting]; simp; omega
+        refine ⟨?_, sv.fair, ?_⟩
+        · simp only [safeOk, Bool.and_eq_true, decide_eq_true_eq]
+          refine ⟨⟨sv.safe, by rw [inv.now]; omega⟩, ?_⟩
+          rw [inv.reqs, ← sv.wcount]; omega
+        · constructor
+          · simp only [obsStep, inv.now]; rw [sv.reqs]
+          · exact inv.now
+          · exact Nat.le_refl _
+          · intro t ht
+            simp only [obsStep, List.mem_append, List.mem_map] at ht
+            rcases ht with ⟨_, _, ht⟩ | ht
+            · subst ht; rw [inv.now]; exact Nat.le_refl _
+            · exact Nat.le_trans (inv.grants_le t ht) inv.widx_le
+          · simp only [obsStep, grantsIn_release, inv.now]
+            simp; omega
+          · intro w
+            simp only [obsStep, grantsIn_release, inv.now]
+            have := inv.quota w
+            split <;> simp_all <;> omega
+          · have hw := sv.wcount
+            simp only [waitingCount_append, Phase.waiting]; simp; omega
+          · intro b hb
+            simp only at hb ⊢
+            rw [phaseOf_append] at hb
+            simp only [List.mem_append, List.mem_singleton]
+            split at hb
+            · exact Or.inl (sv.inHeap b hb)
+            · split at hb
+              · next hbl => exact Or.inr hbl
+              · simp [Phase.eligible] at hb
   | park r =>
     simp only [step] at h
     split at h
     · next hgap =>
       simp only [Option.some.injEq, Prod.mk.injEq] at h
       obtain ⟨rfl, rfl⟩ := h
-      refine ⟨by simp [safeOk, inv.reqs, hgap], ?_⟩
+      refine ⟨by simp [safeOk, inv.reqs, hgap], rfl, ?_⟩
+      have hpp : parkPhase o.now (getReq o.reqs r) = .parked (s.now + (getReq s.reqs r).ttl) := by
+        have : (getReq s.reqs r).ph = .gap := hgap
+        simp [parkPhase, inv.reqs, inv.now, this]
       constructor
-      · simp [obsStep, inv.reqs, inv.now]
+      · simp only [obsStep, hpp]; rw [inv.reqs]
       · exact inv.now
       · exact inv.widx_le
-      · exact inv.served_le
       · exact inv.grants_le
       · exact inv.counter
       · exact inv.quota
       · simp only
         rw [waitingCount_setPhase_same _ _ _ (by rw [hgap]; rfl) rfl]
         exact inv.size
+      · intro b hb
+        exact inv.inHeap b (eligible_of_eligible_setPhase (fun _ => by rw [hgap]; rfl) hb)
+    · next hgd =>
+      simp only [Option.some.injEq, Prod.mk.injEq] at h
+      obtain ⟨rfl, rfl⟩ := h
+      refine ⟨by simp [safeOk, inv.reqs, hgd], rfl, ?_⟩
+      have hpp : parkPhase o.now (getReq o.reqs r) = .wokeDone := by
+        have : (getReq s.reqs r).ph = .gapDone := hgd
+        simp [parkPhase, inv.reqs, this]
+      constructor
+      · simp only [obsStep, hpp]; rw [inv.reqs]
+      · exact inv.now
+      · exact inv.widx_le
+      · exact inv.grants_le
+      · exact inv.counter
+      · exact inv.quota
+      · simp only
+        rw [waitingCount_setPhase_same _ _ _ (by rw [hgd]; rfl) rfl]
+        exact inv.size
+      · intro b hb
+        exact inv.inHeap b (eligible_of_eligible_setPhase (fun h => by simp [Phase.eligible] at h) hb)
     · simp at h
   | expire r =>
     simp only [step] at h
@@ -527,18 +714,19 @@ theorem step_inv {cfg : Cfg} {s s' : State} {o : Obs} {l : Label} {e : Ev}
       · next hdl =>
         simp only [Option.some.injEq, Prod.mk.injEq] at h
         obtain ⟨rfl, rfl⟩ := h
-        refine ⟨by simp [safeOk, inv.reqs, hp, inv.now, hdl], ?_⟩
+        refine ⟨by simp [safeOk, inv.reqs, hp, inv.now, hdl], rfl, ?_⟩
         constructor
         · simp [obsStep, inv.reqs]
         · exact inv.now
         · exact inv.widx_le
-        · exact inv.served_le
         · exact inv.grants_le
         · exact inv.counter
         · exact inv.quota
         · simp only
           rw [waitingCount_setPhase_same _ _ _ (by rw [hp]; rfl) rfl]
           exact inv.size
+        · intro b hb
+          exact inv.inHeap b (eligible_of_eligible_setPhase (fun _ => by rw [hp]; rfl) hb)
       · simp at h
     · simp at h
   | finish r =>
@@ -547,338 +735,85 @@ theorem step_inv {cfg : Cfg} {s s' : State} {o : Obs} {l : Label} {e : Ev}
     · next hp =>
       simp only [Option.some.injEq, Prod.mk.injEq] at h
       obtain ⟨rfl, rfl⟩ := h
-      refine ⟨by simp [safeOk, inv.reqs, hp], ?_⟩
+      refine ⟨by simp [safeOk, inv.reqs, hp], rfl, ?_⟩
       constructor
       · simp [obsStep, inv.reqs]
       · exact inv.now
       · exact inv.widx_le
-      · exact inv.served_le
       · exact inv.grants_le
       · exact inv.counter
       · exact inv.quota
       · exact Nat.le_trans (waitingCount_setPhase_le _ _ _ (by rw [hp]; rfl)) inv.size
+      · intro b hb
+        exact inv.inHeap b (eligible_of_eligible_setPhase (fun h => by simp [Phase.eligible] at h) hb)
     · next hp =>
       simp only [Option.some.injEq, Prod.mk.injEq] at h
       obtain ⟨rfl, rfl⟩ := h
-      refine ⟨by simp [safeOk, inv.reqs, hp], ?_⟩
+      refine ⟨by simp [safeOk, inv.reqs, hp], rfl, ?_⟩
       constructor
       · simp [obsStep, inv.reqs]
       · exact inv.now
       · exact inv.widx_le
-      · exact inv.served_le
       · exact inv.grants_le
       · exact inv.counter
       · exact inv.quota
       · exact Nat.le_trans (waitingCount_setPhase_le _ _ _ (by rw [hp]; rfl)) inv.size
-    · simp at h
-  | roll =>
-    simp only [step, windowUpdate_spec inv] at h
-    split at h
-    · next hdue =>
-      obtain ⟨new, f⟩ := rollLoop_facts cfg s.heap.length
-        ⟨s.heap, s.reqs, grantsIn cfg (s.now / cfg.win) o.grants, []⟩
-      simp only [Option.some.injEq, Prod.mk.injEq] at h
-      obtain ⟨rfl, rfl⟩ := h
-      have hrel := f.rel
-      simp only [List.nil_append] at hrel
-      have hcnt := f.counter
-      have hle := f.le hq
-      simp only at hcnt hle
-      refine ⟨?_, ?_⟩
-      · simp only [safeOk, Bool.and_eq_true, List.all_eq_true, decide_eq_true_eq, hrel]
-        refine ⟨⟨?_, f.nodup⟩, ?_⟩
-        · intro a ha; rw [inv.reqs]; exact f.parked a ha
-        · rw [inv.now]; omega
-      · constructor
-        · simp only [obsStep, hrel, inv.reqs]; exact f.reqs.symm
-        · exact inv.now
-        · exact Nat.le_refl _
-        · simp [obsStep, inv.now]
-        · intro t ht
-          simp only [obsStep, hrel, List.mem_append, List.mem_map] at ht
-          rcases ht with ⟨_, _, ht⟩ | ht
-          · subst ht; rw [inv.now]; exact Nat.le_refl _
-          · exact Nat.le_trans (inv.grants_le t ht) inv.widx_le
-        · simp only [obsStep, hrel, grantsIn_release, inv.now]
-          simp; omega
-        · intro w
-          simp only [obsStep, hrel, grantsIn_release, inv.now]
-          split
-          · next hw => subst hw; omega
-          · simpa using inv.quota w
-        · simp only; rw [f.wcount]; exact inv.size
-    · simp at h
-
-/-! ### fairness invariant (valid as long as no event falls in the class of F10a / F10b) -/
-
-theorem mem_liveIds {reqs : List Req} {b : Nat} : b ∈ liveIds reqs ↔ (phaseOf reqs b).live = true := by
-  simp only [liveIds, List.mem_filter, List.mem_range]
-  exact ⟨fun h => h.2, fun h => ⟨lt_of_live h, h⟩⟩
-
-theorem mem_gapIds {reqs : List Req} {b : Nat} : b ∈ gapIds reqs ↔ phaseOf reqs b = .gap := by
-  simp only [gapIds, List.mem_filter, List.mem_range, beq_iff_eq]
-  refine ⟨fun h => h.2, fun h => ⟨lt_of_live (by rw [h]; rfl), h⟩⟩
-
-theorem live_of_live_setPhase {reqs : List Req} {r b : Nat} {ph : Phase}
-    (hph : ph.live = true → (phaseOf reqs r).live = true)
-    (h : (phaseOf (setPhase reqs r ph) b).live = true) : (phaseOf reqs b).live = true := by
-  by_cases hb : r = b
-  · subst hb
-    by_cases hr : r < reqs.length
-    · rw [phaseOf_setPhase_self _ hr] at h; exact hph h
-    · have := lt_of_live h
-      rw [length_setPhase] at this
-      exact absurd this hr
-  · rwa [phaseOf_setPhase_ne _ hb] at h
-
-theorem parked_or_gap_of_live {ph : Phase} (h : ph.live = true) : ph.isParked = true ∨ ph = .gap := by
-  cases ph <;> simp [Phase.live, Phase.isParked] at h ⊢
-
-structure FInv (cfg : Cfg) (s : State) (o : Obs) : Prop where
-  inHeap : ∀ b, (phaseOf s.reqs b).live = true → b ∈ s.heap
-  served : s.widx = o.served → cfg.quota ≤ s.counter ∨ ∀ b, (phaseOf s.reqs b).live = false
-
-theorem finv_init (cfg : Cfg) (t0 : Nat) : FInv cfg (init cfg t0) (Obs.init cfg t0) where
-  inHeap := by intro b h; simp [init, phaseOf, getReq, dummy, Phase.live] at h
-  served := by intro _; right; intro b; simp [init, phaseOf, getReq, dummy, Phase.live]
-
-theorem step_finv {cfg : Cfg} {s s' : State} {o : Obs} {l : Label} {e : Ev}
-    (inv : Inv cfg s o) (finv : FInv cfg s o) (h : step cfg s l = some (s', e))
-    (ha : f10aEv o e = false) (hb : f10bEv cfg o e = false) :
-    fairOk cfg o e = true ∧ FInv cfg s' (obsStep cfg o e) := by
-  have hq := inv.quota (s.now / cfg.win)
-  cases l with
-  | tick d =>
-    simp only [step, Option.some.injEq, Prod.mk.injEq] at h
-    obtain ⟨rfl, rfl⟩ := h
-    exact ⟨rfl, ⟨finv.inHeap, finv.served⟩⟩
-  | enq prio ttl =>
-    simp only [step, windowUpdate_spec inv] at h
-    split at h
-    · next hlt =>
-      simp only [Option.some.injEq, Prod.mk.injEq] at h
-      obtain ⟨rfl, rfl⟩ := h
-      have hnone : ∀ b, (phaseOf s.reqs b).live = false := by
-        by_cases hs : o.served = o.now / cfg.win
-        · have hw : s.widx = s.now / cfg.win := by
-            have h1 := inv.served_le; have h2 := inv.widx_le; rw [inv.now] at hs; omega
-          rcases finv.served (by rw [hw, hs, inv.now]) with h1 | h1
-          · rw [inv.counter, hw] at h1; omega
-          · exact h1
-        · simp only [f10bEv, Bool.and_eq_false_iff, Bool.not_eq_false', bne_eq_false_iff_eq] at hb
-          rcases hb with hb | hb
-          · intro b
-            cases hl : (phaseOf s.reqs b).live
-            · rfl
-            · have : b ∈ liveIds o.reqs := by rw [inv.reqs]; exact mem_liveIds.mpr hl
-              rw [List.isEmpty_iff.mp hb] at this
-              simp at this
-          · exact absurd hb hs
-      have hnone' : ∀ b, (phaseOf (s.reqs ++ [⟨prio, s.now, ttl, Phase.passed⟩]) b).live = false := by
-        intro b
-        rw [phaseOf_append]
-        split
-        · exact hnone b
-        · split <;> rfl
-      refine ⟨?_, ⟨?_, ?_⟩⟩
-      · simp only [fairOk, List.isEmpty_iff]
-        apply List.eq_nil_iff_forall_not_mem.mpr
-        intro b hb'
-        have := mem_liveIds.mp hb'
-        rw [inv.reqs, hnone b] at this
-        simp at this
-      · intro b hb'
-        simp only at hb'
-        rw [hnone' b] at hb'
-        simp at hb'
-      · intro _; right; exact hnone'
-    · next hge =>
-      split at h
-      · next hfull =>
-        simp only [Option.some.injEq, Prod.mk.injEq] at h
-        obtain ⟨rfl, rfl⟩ := h
-        refine ⟨rfl, ⟨?_, ?_⟩⟩
-        · intro b hb'
-          simp only at hb'
-          rw [phaseOf_append] at hb'
-          split at hb'
-          · exact finv.inHeap b hb'
-          · split at hb' <;> simp [Phase.live] at hb'
-        · intro _; left; simp only; omega
-      · next hroom =>
-        simp only [Option.some.injEq, Prod.mk.injEq] at h
-        obtain ⟨rfl, rfl⟩ := h
-        refine ⟨rfl, ⟨?_, ?_⟩⟩
-        · intro b hb'
-          simp only at hb'
-          rw [phaseOf_append] at hb'
-          simp only [List.mem_append, List.mem_singleton]
-          split at hb'
-          · exact Or.inl (finv.inHeap b hb')
-          · split at hb'
-            · next hbl => exact Or.inr hbl
-            · simp [Phase.live] at hb'
-        · intro _; left; simp only; omega
-  | park r =>
-    simp only [step] at h
-    split at h
-    · next hgap =>
-      simp only [Option.some.injEq, Prod.mk.injEq] at h
-      obtain ⟨rfl, rfl⟩ := h
-      have key : ∀ b, (phaseOf (setPhase s.reqs r (.parked (s.now + (getReq s.reqs r).ttl))) b).live = true →
-          (phaseOf s.reqs b).live = true :=
-        fun b hb' => live_of_live_setPhase (fun _ => by rw [hgap]; rfl) hb'
-      refine ⟨rfl, ⟨fun b hb' => finv.inHeap b (key b hb'), ?_⟩⟩
-      intro hw
-      rcases finv.served hw with h1 | h1
-      · exact Or.inl h1
-      · right; intro b
-        cases hl : (phaseOf (setPhase s.reqs r (.parked (s.now + (getReq s.reqs r).ttl))) b).live
-        · rfl
-        · have := key b hl; rw [h1 b] at this; simp at this
-    · simp at h
-  | expire r =>
-    simp only [step] at h
-    split at h
-    · next dl hp =>
-      split at h
-      · next hdl =>
-        simp only [Option.some.injEq, Prod.mk.injEq] at h
-        obtain ⟨rfl, rfl⟩ := h
-        have key : ∀ b, (phaseOf (setPhase s.reqs r .wokeTTL) b).live = true →
-            (phaseOf s.reqs b).live = true :=
-          fun b hb' => live_of_live_setPhase (fun h => by simp [Phase.live] at h) hb'
-        refine ⟨rfl, ⟨fun b hb' => finv.inHeap b (key b hb'), ?_⟩⟩
-        intro hw
-        rcases finv.served hw with h1 | h1
-        · exact Or.inl h1
-        · right; intro b
-          cases hl : (phaseOf (setPhase s.reqs r .wokeTTL) b).live
-          · rfl
-          · have := key b hl; rw [h1 b] at this; simp at this
-      · simp at h
-    · simp at h
-  | finish r =>
-    simp only [step] at h
-    split at h
+      · intro b hb
+        exact inv.inHeap b (eligible_of_eligible_setPhase (fun h => by simp [Phase.eligible] at h) hb)
     · next hp =>
       simp only [Option.some.injEq, Prod.mk.injEq] at h
       obtain ⟨rfl, rfl⟩ := h
-      have key : ∀ b, (phaseOf (setPhase s.reqs r .retT) b).live = true →
-          (phaseOf s.reqs b).live = true :=
-        fun b hb' => live_of_live_setPhase (fun h => by simp [Phase.live] at h) hb'
-      refine ⟨rfl, ⟨fun b hb' => finv.inHeap b (key b hb'), ?_⟩⟩
-      intro hw
-      rcases finv.served hw with h1 | h1
-      · exact Or.inl h1
-      · right; intro b
-        cases hl : (phaseOf (setPhase s.reqs r .retT) b).live
-        · rfl
-        · have := key b hl; rw [h1 b] at this; simp at this
-    · next hp =>
-      simp only [Option.some.injEq, Prod.mk.injEq] at h
-      obtain ⟨rfl, rfl⟩ := h
-      have key : ∀ b, (phaseOf (setPhase s.reqs r .retF) b).live = true →
-          (phaseOf s.reqs b).live = true :=
-        fun b hb' => live_of_live_setPhase (fun h => by simp [Phase.live] at h) hb'
-      refine ⟨rfl, ⟨fun b hb' => finv.inHeap b (key b hb'), ?_⟩⟩
-      intro hw
-      rcases finv.served hw with h1 | h1
-      · exact Or.inl h1
-      · right; intro b
-        cases hl : (phaseOf (setPhase s.reqs r .retF) b).live
-        · rfl
-        · have := key b hl; rw [h1 b] at this; simp at this
+      refine ⟨by simp [safeOk, inv.reqs, hp], rfl, ?_⟩
+      constructor
+      · simp [obsStep, inv.reqs]
+      · exact inv.now
+      · exact inv.widx_le
+      · exact inv.grants_le
+      · exact inv.counter
+      · exact inv.quota
+      · exact Nat.le_trans (waitingCount_setPhase_le _ _ _ (by rw [hp]; rfl)) inv.size
+      · intro b hb
+        exact inv.inHeap b (eligible_of_eligible_setPhase (fun h => by simp [Phase.eligible] at h) hb)
     · simp at h
   | roll =>
     simp only [step, windowUpdate_spec inv] at h
+    have sv := served inv
+    have hc := sv.counter
+    have hle := sv.le
     split at h
     · next hdue =>
-      obtain ⟨new, f⟩ := rollLoop_facts cfg s.heap.length
-        ⟨s.heap, s.reqs, grantsIn cfg (s.now / cfg.win) o.grants, []⟩
       simp only [Option.some.injEq, Prod.mk.injEq] at h
       obtain ⟨rfl, rfl⟩ := h
-      have hrel := f.rel
-      simp only [List.nil_append] at hrel
-      have hcnt := f.counter
-      have hle := f.le hq
-      have hstop := f.stop (Nat.le_refl _)
-      simp only at hcnt hle hstop
-      -- no request is in the gap (the event is outside the class of F10a)
-      have hnogap : ∀ b, phaseOf s.reqs b ≠ .gap := by
-        intro b hg
-        simp only [f10aEv, Bool.not_eq_false', List.isEmpty_iff] at ha
-        have : b ∈ gapIds o.reqs := by rw [inv.reqs]; exact mem_gapIds.mpr hg
-        rw [ha] at this
-        simp at this
-      -- a waiting request that is not handed off stays in the heap
-      have hstay : ∀ b, (phaseOf s.reqs b).live = true → b ∉ new →
-          b ∈ (rollLoop cfg s.heap.length ⟨s.heap, s.reqs, grantsIn cfg (s.now / cfg.win) o.grants, []⟩).heap := by
-        intro b hl hn
-        rcases parked_or_gap_of_live hl with hp | hg
-        · exact f.keep b (finv.inHeap b hl) hp hn
-        · exact absurd hg (hnogap b)
-      have hlive' : ∀ b, (phaseOf (rollLoop cfg s.heap.length
-            ⟨s.heap, s.reqs, grantsIn cfg (s.now / cfg.win) o.grants, []⟩).reqs b).live = true →
-          (phaseOf s.reqs b).live = true ∧ b ∉ new := by
-        intro b hl
-        rw [f.phase b] at hl
-        split at hl
-        · simp [Phase.live] at hl
-        · next hn => exact ⟨hl, hn⟩
-      refine ⟨?_, ⟨?_, ?_⟩⟩
-      · simp only [fairOk, hrel, Bool.and_eq_true, Bool.or_eq_true, List.all_eq_true,
-          List.contains_iff_mem, Bool.not_eq_true', decide_eq_true_eq]
-        constructor
-        · intro b hb'
-          have hl := mem_liveIds.mp hb'
-          rw [inv.reqs] at hl
-          by_cases hn : b ∈ new
-          · exact Or.inl hn
-          · right
-            intro a ha'
-            rw [inv.reqs]
-            exact f.order a ha' b (hstay b hl hn)
-        · rcases hstop with h1 | h1
-          · right; rw [inv.now]; omega
-          · left
-            intro b hb'
-            have hl := mem_liveIds.mp hb'
-            rw [inv.reqs] at hl
-            by_cases hn : b ∈ new
-            · exact hn
-            · have := hstay b hl hn
-              rw [h1] at this
-              simp at this
-      · intro b hl
-        simp only at hl ⊢
-        obtain ⟨h1, h2⟩ := hlive' b hl
-        exact hstay b h1 h2
-      · intro _
-        simp only
-        rcases hstop with h1 | h1
-        · exact Or.inl h1
-        · right
-          intro b
-          cases hl : (phaseOf (rollLoop cfg s.heap.length
-              ⟨s.heap, s.reqs, grantsIn cfg (s.now / cfg.win) o.grants, []⟩).reqs b).live
-          · rfl
-          · obtain ⟨h2, h3⟩ := hlive' b hl
-            have := hstay b h2 h3
-            rw [h1] at this
-            simp at this
+      refine ⟨sv.safe, sv.fair, ?_⟩
+      constructor
+      · simp only [obsStep]; rw [sv.reqs]
+      · exact inv.now
+      · exact Nat.le_refl _
+      · intro t ht
+        simp only [obsStep, List.mem_append, List.mem_map] at ht
+        rcases ht with ⟨_, _, ht⟩ | ht
+        · subst ht; rw [inv.now]; exact Nat.le_refl _
+        · exact Nat.le_trans (inv.grants_le t ht) inv.widx_le
+      · simp only [obsStep, grantsIn_release, inv.now]
+        simp; omega
+      · intro w
+        simp only [obsStep, grantsIn_release, inv.now]
+        have := inv.quota w
+        split <;> simp_all <;> omega
+      · simp only; rw [sv.wcount]; exact inv.size
+      · exact sv.inHeap
     · simp at h
 
 /-! ### whole runs -/
 
 theorem run_inv {cfg : Cfg} (ls : List Label) {s s' : State} {o : Obs} {es : List Ev}
     (inv : Inv cfg s o) (h : run cfg s ls = some (s', es)) :
-    safeFrom cfg o es = true ∧ Inv cfg s' (es.foldl (obsStep cfg) o) := by
+    safeFrom cfg o es = true ∧ fairFrom cfg o es = true ∧ Inv cfg s' (es.foldl (obsStep cfg) o) := by
   induction ls generalizing s o es with
   | nil =>
     simp only [run, Option.some.injEq, Prod.mk.injEq] at h
     obtain ⟨rfl, rfl⟩ := h
-    exact ⟨rfl, inv⟩
+    exact ⟨rfl, rfl, inv⟩
   | cons l ls ih =>
     simp only [run] at h
     split at h
@@ -889,35 +824,9 @@ theorem run_inv {cfg : Cfg} (ls : List Label) {s s' : State} {o : Obs} {es : Lis
       · next s2 es' hrun =>
         simp only [Option.some.injEq, Prod.mk.injEq] at h
         obtain ⟨rfl, rfl⟩ := h
-        obtain ⟨hs, inv1⟩ := step_inv inv hstep
-        obtain ⟨hs', inv2⟩ := ih inv1 hrun
-        exact ⟨by simp [safeFrom, hs, hs'], by simpa using inv2⟩
-
-theorem run_finv {cfg : Cfg} (ls : List Label) {s s' : State} {o : Obs} {es : List Ev}
-    (inv : Inv cfg s o) (finv : FInv cfg s o) (h : run cfg s ls = some (s', es))
-    (hc : cleanFrom cfg o es = true) :
-    fairFrom cfg o es = true ∧ FInv cfg s' (es.foldl (obsStep cfg) o) := by
-  induction ls generalizing s o es with
-  | nil =>
-    simp only [run, Option.some.injEq, Prod.mk.injEq] at h
-    obtain ⟨rfl, rfl⟩ := h
-    exact ⟨rfl, finv⟩
-  | cons l ls ih =>
-    simp only [run] at h
-    split at h
-    · simp at h
-    · next s1 e hstep =>
-      split at h
-      · simp at h
-      · next s2 es' hrun =>
-        simp only [Option.some.injEq, Prod.mk.injEq] at h
-        obtain ⟨rfl, rfl⟩ := h
-        simp only [cleanFrom, Bool.and_eq_true, Bool.not_eq_true'] at hc
-        obtain ⟨⟨hc1, hc2⟩, hc3⟩ := hc
-        obtain ⟨_, inv1⟩ := step_inv inv hstep
-        obtain ⟨hf, finv1⟩ := step_finv inv finv hstep hc1 hc2
-        obtain ⟨hf', finv2⟩ := ih inv1 finv1 hrun hc3
-        exact ⟨by simp [fairFrom, hf, hf'], by simpa using finv2⟩
+        obtain ⟨hs, hf, inv1⟩ := step_inv inv hstep
+        obtain ⟨hs', hf', inv2⟩ := ih inv1 hrun
+        exact ⟨by simp [safeFrom, hs, hs'], by simp [fairFrom, hf, hf'], by simpa using inv2⟩
 
 theorem safeFrom_split (cfg : Cfg) (pre : List Ev) (e : Ev) (post : List Ev) (o : Obs)
     (h : safeFrom cfg o (pre ++ e :: post) = true) : safeOk cfg (pre.foldl (obsStep cfg) o) e = true := by
@@ -935,26 +844,152 @@ theorem fairFrom_split (cfg : Cfg) (pre : List Ev) (e : Ev) (post : List Ev) (o 
     simp only [List.cons_append, fairFrom, Bool.and_eq_true] at h
     exact ih _ h.2
 
-/-- One roll-over step from ANY state, unfolded into the loop facts. -/
-theorem roll_facts {cfg : Cfg} {s s' : State} {rel : List Nat}
-    (h : step cfg s .roll = some (s', .roll rel)) :
-    ∃ c, LoopFacts cfg s.heap.length ⟨s.heap, s.reqs, c, []⟩ ⟨s'.heap, s'.reqs, s'.counter, rel⟩ rel := by
+/-- The batch of hand-offs of an event, if it has one. -/
+def evRel : Ev → Option (List Nat)
+  | .enq _ _ _ rel => some rel
+  | .roll rel => some rel
+  | _ => none
+
+/-- One serving step (roll-over or Enqueue) from ANY state, unfolded into the loop facts. -/
+theorem serve_facts {cfg : Cfg} {s s' : State} {l : Label} {e : Ev} {rel : List Nat}
+    (h : step cfg s l = some (s', e)) (he : evRel e = some rel) :
+    ∃ c L, LoopFacts cfg s.heap.length ⟨s.heap, s.reqs, c, []⟩ L rel ∧
+      (s'.heap = L.heap ∨ s'.heap = L.heap ++ [s.reqs.length]) ∧
+      (s'.counter = L.counter ∨ (s'.counter = L.counter + 1 ∧ L.counter < cfg.quota)) ∧
+      (∀ b, b < s.reqs.length → phaseOf s'.reqs b = phaseOf L.reqs b) := by
+  cases l with
+  | tick d =>
+    simp only [step, Option.some.injEq, Prod.mk.injEq] at h
+    obtain ⟨rfl, rfl⟩ := h; simp [evRel] at he
+  | park r =>
+    simp only [step] at h
+    split at h <;> simp only [Option.some.injEq, Prod.mk.injEq, reduceCtorEq] at h
+    all_goals (obtain ⟨rfl, rfl⟩ := h; simp [evRel] at he)
+  | expire r =>
+    simp only [step] at h
+    split at h
+    · split at h
+      · simp only [Option.some.injEq, Prod.mk.injEq] at h
+        obtain ⟨rfl, rfl⟩ := h; simp [evRel] at he
+      · simp at h
+    · simp at h
+  | finish r =>
+    simp only [step] at h
+    split at h <;> simp only [Option.some.injEq, Prod.mk.injEq, reduceCtorEq] at h
+    all_goals (obtain ⟨rfl, rfl⟩ := h; simp [evRel] at he)
+  | roll =>
+    simp only [step] at h
+    split at h
+    · obtain ⟨new, f⟩ := rollLoop_facts cfg s.heap.length
+        ⟨s.heap, s.reqs, (windowUpdate cfg s.now s.widx s.counter).2, []⟩
+      simp only [Option.some.injEq, Prod.mk.injEq] at h
+      obtain ⟨rfl, rfl⟩ := h
+      simp only [evRel, Option.some.injEq] at he
+      have := f.rel
+      simp only [List.nil_append] at this
+      rw [this] at he
+      subst he
+      exact ⟨_, _, f, Or.inl rfl, Or.inl rfl, fun _ _ => rfl⟩
+    · simp at h
+  | enq prio ttl =>
+    simp only [step] at h
+    obtain ⟨new, f⟩ := rollLoop_facts cfg s.heap.length
+      ⟨s.heap, s.reqs, (windowUpdate cfg s.now s.widx s.counter).2, []⟩
+    have hr := f.rel
+    simp only [List.nil_append] at hr
+    have hlen := f.len
+    simp only at hlen
+    split at h
+    · next hlt =>
+      simp only [Option.some.injEq, Prod.mk.injEq] at h
+      obtain ⟨rfl, rfl⟩ := h
+      simp only [evRel, Option.some.injEq] at he
+      rw [hr] at he; subst he
+      refine ⟨_, _, f, Or.inl rfl, Or.inr ⟨rfl, hlt⟩, ?_⟩
+      intro b hb
+      simp only [phaseOf_append, hlen, hb, if_true]
+    · split at h
+      · simp only [Option.some.injEq, Prod.mk.injEq] at h
+        obtain ⟨rfl, rfl⟩ := h
+        simp only [evRel, Option.some.injEq] at he
+        rw [hr] at he; subst he
+        refine ⟨_, _, f, Or.inl rfl, Or.inl rfl, ?_⟩
+        intro b hb
+        simp only [phaseOf_append, hlen, hb, if_true]
+      · simp only [Option.some.injEq, Prod.mk.injEq] at h
+        obtain ⟨rfl, rfl⟩ := h
+        simp only [evRel, Option.some.injEq] at he
+        rw [hr] at he; subst he
+        refine ⟨_, _, f, Or.inr (by rw [hlen]), Or.inl rfl, ?_⟩
+        intro b hb
+        simp only [phaseOf_append, hlen, hb, if_true]
+
+/-! ### bursts: only Enqueue steps, the clock stands still -/
+
+theorem step_enq_event {cfg : Cfg} {s s' : State} {p ttl : Nat} {e : Ev}
+    (h : step cfg s (.enq p ttl) = some (s', e)) : ∃ res rel, e = .enq p ttl res rel := by
   simp only [step] at h
   split at h
-  · obtain ⟨new, f⟩ := rollLoop_facts cfg s.heap.length
-      ⟨s.heap, s.reqs, (windowUpdate cfg s.now s.widx s.counter).2, []⟩
-    simp only [Option.some.injEq, Prod.mk.injEq, Ev.roll.injEq] at h
-    obtain ⟨rfl, hrel⟩ := h
-    have := f.rel
-    simp only [List.nil_append] at this
-    rw [this] at hrel
-    subst hrel
-    refine ⟨(windowUpdate cfg s.now s.widx s.counter).2, ?_⟩
-    dsimp only
-    have hL : ∀ L : Loop, L.rel = new → (⟨L.heap, L.reqs, L.counter, new⟩ : Loop) = L := by
-      intro L h; cases L; simp only at h; subst h; rfl
-    rw [hL _ this]
-    exact f
-  · simp at h
+  · simp only [Option.some.injEq, Prod.mk.injEq] at h; exact ⟨_, _, h.2.symm⟩
+  · split at h
+    · simp only [Option.some.injEq, Prod.mk.injEq] at h; exact ⟨_, _, h.2.symm⟩
+    · simp only [Option.some.injEq, Prod.mk.injEq] at h; exact ⟨_, _, h.2.symm⟩
+
+/-- All events are Enqueue results. -/
+def allEnq : List Ev → Prop
+  | [] => True
+  | .enq _ _ _ _ :: es => allEnq es
+  | _ :: _ => False
+
+theorem run_replicate_enq {cfg : Cfg} {p ttl : Nat} (k : Nat) {s s' : State} {es : List Ev}
+    (h : run cfg s (List.replicate k (.enq p ttl)) = some (s', es)) : allEnq es := by
+  induction k generalizing s es with
+  | zero =>
+    simp only [List.replicate, run, Option.some.injEq, Prod.mk.injEq] at h
+    obtain ⟨_, rfl⟩ := h; trivial
+  | succ k ih =>
+    simp only [List.replicate, run] at h
+    split at h
+    · simp at h
+    · next s1 e hstep =>
+      split at h
+      · simp at h
+      · next s2 es' hrun =>
+        simp only [Option.some.injEq, Prod.mk.injEq] at h
+        obtain ⟨rfl, rfl⟩ := h
+        obtain ⟨res, rel, rfl⟩ := step_enq_event hstep
+        show allEnq es'
+        exact ih hrun
+
+/-- While only Enqueue events happen the observer's clock stands still and every immediate pass
+    is a grant in the window of that instant. -/
+theorem passCount_le_grants (cfg : Cfg) (es : List Ev) (o : Obs) (h : allEnq es) :
+    (es.foldl (obsStep cfg) o).now = o.now ∧
+    grantsIn cfg (o.now / cfg.win) o.grants + passCount es
+      ≤ grantsIn cfg (o.now / cfg.win) (es.foldl (obsStep cfg) o).grants := by
+  induction es generalizing o with
+  | nil => simp [passCount]
+  | cons e es ih =>
+    cases e with
+    | enq p ttl res rel =>
+      have ih' := ih (obsStep cfg o (.enq p ttl res rel)) h
+      cases res <;> simp only [obsStep, List.foldl_cons, passCount] at ih' ⊢
+      · refine ⟨ih'.1, ?_⟩
+        have := ih'.2
+        simp only [grantsIn_cons, grantsIn_release] at this
+        simp at this; omega
+      · refine ⟨ih'.1, ?_⟩
+        have := ih'.2
+        simp only [grantsIn_release] at this
+        simp at this; omega
+      · refine ⟨ih'.1, ?_⟩
+        have := ih'.2
+        simp only [grantsIn_release] at this
+        simp at this; omega
+    | tick d => exact absurd h (by simp [allEnq])
+    | park r => exact absurd h (by simp [allEnq])
+    | roll rel => exact absurd h (by simp [allEnq])
+    | expire r => exact absurd h (by simp [allEnq])
+    | finish r ok => exact absurd h (by simp [allEnq])
 
 end LunarVerif.C10
